@@ -166,6 +166,14 @@ class Setup:
             if cr.get("xpubs"):
                 acc = NamedHDPublicKey.from_hd_pub(child_hd_pub=HDPublicKey.parse(c.xpub()), xfp_hex=c.fingerprint.hex(), path=c.account_path)
                 hd_pubs[acc.raw_serialize()] = acc
+        if cr.get("lookup_helper") and not self.multi:
+            # the updater's key lookup comes from the library's own BIP44 helper on the account key, with gap limits that just cover the
+            # receiving (external) and change (internal) indices in use
+            c = self.cos[0]
+            acc = NamedHDPublicKey.from_hd_pub(child_hd_pub=HDPublicKey.parse(c.xpub()), xfp_hex=c.fingerprint.hex(), path=c.account_path)
+            e_max = max([ix for (b, ix) in where if b == 0] + [0])
+            i_max = max([ix for (b, ix) in where if b == 1] + [0])
+            pubkey_lookup = acc.bip44_lookup(max_external=e_max, max_internal=i_max)
         for item in self.inputs + ([self.change] if self.change else []):
             if item["redeem"] is not None:
                 redeem_lookup[tm.hash160(item["redeem"])] = lib_script(item["redeem"], RedeemScript)
@@ -378,6 +386,8 @@ class Ceremony:
         c.psbt = self.setup.create_psbt(self.plan)
         self.p0 = self.store(c)
         self.tr.ev("C", "create", f"{self.setup.kind}|{self.setup.m}of{self.setup.n}|in={len(self.setup.inputs)}|out={len(self.setup.outputs)}")
+        if self.plan.get("creator", {}).get("lookup_helper") and not self.setup.multi:
+            self.tr.fault("updater_uses_bip44_lookup_helper")
 
     # ---- signer behaviour
     def sign(self, node, p):
@@ -1237,6 +1247,39 @@ class Ceremony:
                     acc = secp.parse_path(c.account_path)
                     im2.append((b"\x06" + pk, c.fingerprint + b"".join(i.to_bytes(4, "little") for i in acc + [0, 1])))
             pm["inputs"][k_in] = im2
+        elif kind == "weak_redeem_both_records_p2sh_input":
+            # a legacy p2sh input documented by its previous transaction AND a (truthful) witness UTXO copy of the spent output, as some
+            # updaters write for every input, with a redeem script that is not the coin's: a weaker or stronger quorum over the very same
+            # keys (derivations stay valid), or a script over foreign keys; optionally the change output is moved to the same quorum
+            if s.kind != "p2sh" or s.n < 2:
+                return None
+            k_in = a % len(pm["inputs"])
+            im = pm["inputs"][k_in]
+            ftx = s.funding.get(tx["ins"][k_in]["txid"])
+            cur = psbtmap.get(im, 0x04)
+            ms_ = stdverify.parse_multisig(cur[0][1]) if cur else None
+            if ftx is None or ms_ is None:
+                return None
+            o = ftx["outs"][tx["ins"][k_in]["vout"]]
+            m2 = s.m - 1 if s.m > 1 else s.m + 1
+            v_ = (a // 7) % 3
+            im2 = [kv for kv in im if kv[0][:1] not in (b"\x00", b"\x01", b"\x04")]
+            recs = [(b"\x00", tm.ser_tx(ftx)), (b"\x01", o["amount"].to_bytes(8, "little") + tm.compact_size(len(o["spk"])) + o["spk"])]
+            if v_ == 2:
+                im2 = [kv for kv in im2 if kv[0][:1] != b"\x06"]
+                recs.append((b"\x04", tm.multisig_script(s.m, evil[: s.n])))
+                for pk, c in zip(evil, s.cos):
+                    acc = secp.parse_path(c.account_path)
+                    im2.append((b"\x06" + pk, c.fingerprint + b"".join(i.to_bytes(4, "little") for i in acc + [0, 1])))
+            else:
+                recs.append((b"\x04", tm.multisig_script(m2, ms_[1])))
+            pm["inputs"][k_in] = recs + im2
+            if v_ == 1 and ch_pos is not None:
+                spk2, red2, ws2 = rw.spend_script(s.kind, m2, s.change["pks"])
+                tx["outs"][ch_pos]["spk"] = spk2
+                put_tx()
+                if red2 is not None:
+                    psbtmap.set_value(pm["outputs"][ch_pos], b"\x00", red2)
         elif kind == "second_change":
             if ch_pos is None:
                 return None
@@ -1473,7 +1516,7 @@ def execute(plan, prop, trace):
 # ------------------------------------------------------------------------------------------------ generation
 
 TAMPER_KINDS = ["lookalike_witness_program_change", "lookalike_witness_program_change", "lookalike_template_input", "foreign_script_on_spend_output", "foreign_script_on_spend_output", "malformed_multisig_change", "malformed_multisig_change", "foreign_redeem_on_p2wsh_input", "weak_quorum_dust_input", "weak_quorum_dust_input", "swap_change_spk", "flip_change_spk_byte", "foreign_script", "foreign_fingerprint", "wrong_path", "one_cosigner_keys", "one_cosigner_keys_spoofed_fps", "utxo_amount", "other_prev_tx", "changed_quorum", "second_change",
-                "redeem_for_other_input", "forge_change", "forge_change", "forge_change", "nonwitness_utxo_foreign_script", "both_utxo_records_disagree", "swap_change_spk_type", "swap_change_spk_type", "p2sh_input_as_witness_utxo"]
+                "redeem_for_other_input", "forge_change", "forge_change", "forge_change", "nonwitness_utxo_foreign_script", "both_utxo_records_disagree", "swap_change_spk_type", "swap_change_spk_type", "p2sh_input_as_witness_utxo", "weak_redeem_both_records_p2sh_input", "weak_redeem_both_records_p2sh_input"]
 
 
 def gen_spend(ch, tier, kinds, max_n):
@@ -1660,14 +1703,14 @@ def enumerate_plans(tier, prop, seed):
         # the catalogue against both wallet types
         for kind in ("p2sh", "p2wsh"):
             for tk in [None] + TAMPER_KINDS:
-                for rep in range((1 if tier == "quick" else 4) * (3 if tk == "weak_quorum_dust_input" else 5 if tk == "malformed_multisig_change" else 3 if tk == "lookalike_witness_program_change" else 4 if tk == "foreign_script_on_spend_output" else 2 if tk == "foreign_redeem_on_p2wsh_input" else 1)):
+                for rep in range((1 if tier == "quick" else 4) * (3 if tk == "weak_quorum_dust_input" else 5 if tk == "malformed_multisig_change" else 3 if tk == "lookalike_witness_program_change" else 4 if tk == "foreign_script_on_spend_output" else 2 if tk == "foreign_redeem_on_p2wsh_input" else 3 if tk == "weak_redeem_both_records_p2sh_input" else 1)):
                     plan = base(kind, r.choice([1, 2]) if tk != "weak_quorum_dust_input" else 2, 2 if tier == "quick" else r.choice([2, 3]))
                     plan["creator"] = {"segwit_flag": False, "xpubs": rep % 2 == 1, "unknown": False, "helper": kind == "p2sh" and rep % 2 == 0}
                     plan["sign_method"] = "keys"
                     plan["topology"] = "review"
                     st = {"op": "send", "src": "C", "dst": "S0"}
                     if tk:
-                        st["tamper"] = {"kind": tk, "a": (5 * r.randrange(2000) + rep % 5) if tk == "malformed_multisig_change" else (2 * r.randrange(5000) + rep % 2) if tk == "foreign_redeem_on_p2wsh_input" else (7 * (4 * r.randrange(300) + rep % 4) + r.randrange(7)) if tk == "foreign_script_on_spend_output" else r.randrange(10000) if tk != "weak_quorum_dust_input" else 3 * r.randrange(3000) + rep % 3}
+                        st["tamper"] = {"kind": tk, "a": (5 * r.randrange(2000) + rep % 5) if tk == "malformed_multisig_change" else (2 * r.randrange(5000) + rep % 2) if tk == "foreign_redeem_on_p2wsh_input" else (7 * (4 * r.randrange(300) + rep % 4) + r.randrange(7)) if tk == "foreign_script_on_spend_output" else (7 * (3 * r.randrange(300) + rep % 3) + r.randrange(7)) if tk == "weak_redeem_both_records_p2sh_input" else r.randrange(10000) if tk != "weak_quorum_dust_input" else 3 * r.randrange(3000) + rep % 3}
                         plan["tamper"] = st["tamper"]
                     plan["steps"] = [st]
                     plan["enum"] = "catalogue"
@@ -1737,6 +1780,22 @@ def enumerate_plans(tier, prop, seed):
                     plan["steps"] = steps + [{"op": "finalize"}]
                     plan["enum"] = "corrupt-sig-slots"
                     yield plan
+    # single-key wallets whose updater builds its key lookup with the library's BIP44 helper (gap limits = the indices in use), spending a
+    # received coin and an earlier change coin, signed through the HD signer (which needs the derivations the updater attached)
+    for kind in ("p2pkh", "p2wpkh", "p2sh_p2wpkh"):
+        for (e_ix, i_ix) in ((0, 3), (3, 0), (2, 2), (1, 4)):
+            plan = base(kind, 1, 1, n_in=2)
+            plan["inputs"][0].update(branch=0, index=e_ix)
+            plan["inputs"][1].update(branch=1, index=i_ix)
+            plan["change"]["index"] = max(i_ix - 1, 0)
+            plan["creator"] = {"segwit_flag": False, "xpubs": False, "unknown": False, "helper": False, "lookup_helper": True}
+            plan["sign_method"] = "hd"
+            plan["encoding"] = "raw"
+            plan["topology"] = "star"
+            plan["steps"] = [{"op": "send", "src": "C", "dst": "S0"}, {"op": "send", "src": "S0", "dst": "C"}, {"op": "finalize"}]
+            plan["expect_complete"] = True
+            plan["enum"] = "bip44-lookup-helper"
+            yield plan
     # a co-signer whose reply declares another sighash type than its signature names: every wallet kind
     for kind, m, n in (("p2pkh", 1, 1), ("p2wpkh", 1, 1), ("p2sh_p2wpkh", 1, 1), ("p2sh", 2, 2), ("p2wsh", 2, 2), ("p2sh_p2wsh", 2, 2)):
         plan = base(kind, m, n)
